@@ -76,7 +76,15 @@ func VerifH_C14_Group() {
 // VerifH_C14_GroupErrors: a key that is not a string, and the same key from two pairs, are errors;
 // members whose value is absent are omitted.
 func VerifH_C14_GroupErrors() {
-	switch verifChoose(6) {
+	switch verifChoose(8) {
+	case 6: // an item whose key expression has no value: a key that is not a string
+		arr := []interface{}{map[string]interface{}{"k": "a", "v": 1.0}, map[string]interface{}{"v": 2.0}, map[string]interface{}{"k": "a", "v": 3.0}}
+		got := hEval(`items{k: v}`, map[string]interface{}{"items": arr})
+		verifAssert(got.kind == oEvalError && got.etype == ErrIllegalKey, "group-absent-key-is-error")
+	case 7: // the same next to a literal pair
+		arr := []interface{}{map[string]interface{}{"k": "a", "v": 1.0}, map[string]interface{}{"v": 2.0}}
+		got := hEval(`items{k: $sum(v), "n": $count($)}`, map[string]interface{}{"items": arr})
+		verifAssert(got.kind == oEvalError && got.etype == ErrIllegalKey, "group-absent-key-is-error")
 	case 4: // literal pair first, computed pair second, several items (the key may come from a later item)
 		k1, k2 := hSafeString(1), hSafeString(1)
 		arr := []interface{}{map[string]interface{}{"k": k1, "v": 1.0}, map[string]interface{}{"k": k2, "v": 2.0}}
